@@ -598,15 +598,18 @@ class GateSim(PeerSim):
         # library must not have died on the way (a dead reader leaves the endpoint ACTIVE on a dead socket, sends
         # still consume numbers, nothing is ever reported)
         dead = self.dead_tasks()
-        if dead and self.violation is None:
+        if self.violation is None and self.stop_reason == "settled":
             live_tr = [t for c in self.net.conns for t in c.tr
                        if t is not None and t.label == "E" and not t._lost_called and not t._closing]
-            if self.eut.connection_state > DISC and not live_tr:
-                raise Violation("library-task-died", f"C11/connected-state-on-a-dead-transport/{dead[0][1].split('(')[0]}",
-                                f"a task of the library ended with an exception: {dead[0]}; the transport is gone but the "
-                                f"state is {self.eut.connection_state.name} and on_disconnect was reported "
-                                f"{self.eut.n_on_disconnect} time(s)")
-            self.probe("library_task_died_after_a_consistent_disconnect")
+            had_tr = any(t is not None and t.label == "E" for c in self.net.conns for t in c.tr)
+            if self.eut.connection_state > DISC and had_tr and not live_tr and not self.pending_hooks:
+                why = dead[0][1].split("(")[0] if dead else "no-task-died"
+                raise Violation("library-task-died", f"C11/connected-state-on-a-dead-transport/{why}",
+                                f"every transport of the endpoint is gone (quiescent, settle phase over) but the state is "
+                                f"{self.eut.connection_state.name} and on_disconnect was reported "
+                                f"{self.eut.n_on_disconnect} time(s); library tasks that died: {dead[:1]}")
+            if dead:
+                self.probe("library_task_died_after_a_consistent_disconnect")
         if not self.prefix_done:
             self.probe("prefix_not_reached")
             return
